@@ -6,7 +6,9 @@ RULE = ("nonce generation under scripted streams whose first k in {0,1,2,5} scal
         "internal::test_new_nonce, customer::Requested::new and Ready::start; nonce decoding over the edge set, the close "
         "tag and non-canonical encodings; for every Ready state of channel histories (0-2 payments) the pay token "
         "re-labelled as closing signature for the close state sharing its other fields (merchant close check) and vice "
-        "versa; ChannelId::new under every single-input change (randomness, key, account strings of several lengths), "
+        "versa; ChannelId::new under every single-input change (randomness, key - another key, and the same key with one element "
+        "replaced or two exchanged, requested right after the original and followed by the original again -, account strings of "
+        "several lengths), "
         "recomputed with hashlib and with the Gallina SHA3. Non-trivial = every case; distinct = distinct digest.")
 TRUSTED = ["theorems C18_* for every stream / field / hash; correspondence ops: nonce_new, decode Nonce, req_new, ready_start, "
            "m_check_close, sig_verify, cid_new"]
